@@ -18,6 +18,8 @@ type recOut struct {
 	pmsg     string
 	failed   bool
 	result   []byte
+	errs     []string
+	warns    []string
 }
 
 func implRecord(version string, raw []byte) (o recOut) {
@@ -31,6 +33,7 @@ func implRecord(version string, raw []byte) (o recOut) {
 	r.Record(append([]byte{}, raw...)) // exact-capacity copy: over-reads cannot hide in spare capacity
 	o.failed = r.Failed != nil
 	o.result = []byte(r.Result)
+	o.errs, o.warns = r.ErrorMessages, r.WarningErrorMessages
 	return o
 }
 
@@ -46,18 +49,44 @@ func isSubseq(small, big []byte) bool {
 
 var c02Markers = []string{"<rpc-error>", "</rpc-error>", "<rpc-errors>", "</rpc-errors>", "<nc:rpc-error>", "</nc:rpc-error>"}
 
+// c02ErrVariants: rpc-error spellings. "Carries an rpc-error" is, for the code and for the model,
+// "contains one of the six FailedWhenContains markers" (regenerated constant): an opening tag with
+// attributes is recognised by its closing tag only, a foreign prefix / upper case / a self-closing
+// tag / an escaped tag is not an rpc-error, and marker text inside a comment or CDATA section is.
+var c02ErrVariants = []string{
+	`<rpc-error xmlns="urn:ietf:params:xml:ns:netconf:base:1.0"><error-type>rpc</error-type></rpc-error>`,
+	`<rpc-error a="1">`, `<nc:rpc-error xmlns:nc="urn:x"><nc:error-tag>x</nc:error-tag></nc:rpc-error>`,
+	`<x:rpc-error>y</x:rpc-error>`, `<!-- <rpc-error> -->`, `<![CDATA[</rpc-error>]]>`, `<rpc-error/>`,
+	`<RPC-ERROR>`, `&lt;rpc-error&gt;`, `<rpc-error >`, `</rpc-error >`, `<rpc-errors>`, `</nc:rpc-error>`,
+	`<rpc-error><error-severity>warning</error-severity><error-message>w</error-message></rpc-error>`,
+	`<rpc-error><error-severity>error</error-severity></rpc-error><rpc-error><error-severity>warning</error-severity></rpc-error>`,
+	`<rpc-errors><rpc-error><error-severity>warning</error-severity></rpc-error></rpc-errors>`,
+	`<rpc-error><error-severity>info</error-severity></rpc-error>`,
+	`<rpc-error><error-severity>warning</error-severity><error-severity>error</error-severity></rpc-error>`,
+}
+
 func genPayload(r *vlib.Rng) []byte {
 	var b bytes.Buffer
-	if r.Chance(1, 5) {
+	switch {
+	case r.Chance(1, 5):
 		b.WriteString(`<?xml version="1.0" encoding="UTF-8"?>`)
+	case r.Chance(1, 16):
+		// a declaration in another spelling is not "the" declaration the code knows: it stays
+		b.WriteString(r.Pick([]string{`<?xml version="1.0" encoding="utf-8"?>`, `<?xml version="1.0"?>`, `<?xml version='1.0' encoding='UTF-8'?>`}))
 	}
 	if r.Chance(1, 4) {
 		b.WriteString(r.Pick([]string{"\n", " ", "\n\n", "\t"}))
 	}
-	b.WriteString(`<rpc-reply message-id="` + strconv.Itoa(101+r.Intn(30)) + `">`)
+	wrapped := !r.Chance(1, 12) // now and then no rpc-reply wrapper: a fragment at the very edge of the payload
+	if wrapped {
+		b.WriteString(`<rpc-reply message-id="` + strconv.Itoa(101+r.Intn(30)) + `">`)
+	}
 	n := r.Intn(8)
+	if !wrapped {
+		n = r.Range(1, 3)
+	}
 	for i := 0; i < n; i++ {
-		switch r.Intn(9) {
+		switch r.Intn(14) {
 		case 0:
 			b.WriteString("<ok/>")
 		case 1:
@@ -74,11 +103,19 @@ func genPayload(r *vlib.Rng) []byte {
 			b.WriteString(string(r.Bytes(r.Range(1, 40), []byte("abc#0123456789\n<>/ "))))
 		case 7:
 			b.WriteString("<rpc-error><error-severity>error</error-severity></rpc-error>")
+		case 8:
+			b.WriteString(r.Pick(c02ErrVariants))
+		case 9:
+			b.WriteString(r.Pick([]string{"]]>]]>", "a]]>]]>\n", "]]>]]", "\n]]>]]>"}))
+		case 10:
+			b.WriteString(r.Pick([]string{`<?xml version="1.0" encoding="UTF-8"?>`, "<subscription-id>7</subscription-id>", "</rpc>", "\n##", "##\n", "\n#1\n"}))
 		default:
 			b.WriteString("<x>" + strconv.Itoa(r.Intn(1000)) + "</x>")
 		}
 	}
-	b.WriteString("</rpc-reply>")
+	if wrapped {
+		b.WriteString("</rpc-reply>")
+	}
 	if r.Chance(1, 4) {
 		b.WriteString(r.Pick([]string{"\n", " ", "\n\n"}))
 	}
@@ -115,6 +152,8 @@ type c02case struct {
 	raw   []byte
 	ver   string
 	frame bool
+	lead  bool   // 1.0 frame with white space in front of a declaration (finding C02-F21's trigger)
+	p10   []byte // 1.0 frame: the payload behind the declaration
 }
 
 func runC02(c *ctx) {
@@ -131,11 +170,19 @@ func runC02(c *ctx) {
 	}
 	if c.replay != "" {
 		f := strings.Fields(c.replay)
-		if len(f) >= 4 && f[1] == "raw" {
+		if len(f) >= 3 && f[1] == "msgs" {
+			raw, _ := vlib.UnHex(f[2])
+			cases = append(cases, c02case{line: c.replay, class: "replay", raw: raw, ver: "1.1"})
+		} else if len(f) >= 4 && f[1] == "raw" {
 			raw, _ := vlib.UnHex(f[3])
 			cases = append(cases, c02case{line: c.replay, class: "replay", raw: raw, ver: f[2]})
 		} else {
-			cases = append(cases, c02case{line: c.replay, class: "replay", frame: true, ver: f[2]})
+			cs := c02case{line: c.replay, class: "replay", frame: true, ver: f[2]}
+			if f[2] == "1.0" && len(f) == 7 {
+				cs.p10, _ = vlib.UnHex(f[4])
+				cs.lead = f[3] == "1" && f[6] != "-"
+			}
+			cases = append(cases, cs)
 		}
 	} else {
 		r := c.rng
@@ -158,23 +205,59 @@ func runC02(c *ctx) {
 			p := genPayload(r)
 			addFrame11(p, r.Cuts(len(p), r.Intn(4)), r.PickB(ws), r.PickB(ws), "frame11-random")
 		}
-		// big chunks: size digit lengths up to 6
-		for i := 0; i < c.n(6, 60); i++ {
-			n := []int{9, 10, 99, 100, 999, 1000, 9999, 10000, 99999, 100000, 250000}[r.Intn(11)]
+		// big chunks: every size whose header is one digit longer than its predecessor's (9|10 …
+		// 99999|100000; 999999|1000000 in the thorough tier), one chunk of that size plus a tail
+		edges := []int{9, 10, 99, 100, 999, 1000, 9999, 10000, 99999, 100000, 250000}
+		for i := 0; i < c.n(22, 120); i++ {
+			n := edges[i%len(edges)]
+			if c.thorough() && i%40 == 39 {
+				n = []int{999999, 1000000}[r.Intn(2)]
+			}
 			p := append([]byte("<d>"), r.Bytes(n, []byte("ab#\n0"))...)
 			p = append(p, []byte("</d>")...)
 			cuts := []int{n, len(p) - n}
-			addFrame11(p, cuts, nil, nil, "frame11-bigchunk")
+			if r.Bool() {
+				cuts = []int{len(p) - n, n}
+			}
+			addFrame11(p, cuts, nil, nil, fmt.Sprintf("frame11-bigchunk:%d-digit-size", len(strconv.Itoa(n))))
+		}
+		// several chunks in one frame whose sizes sit on both sides of a header-length change
+		for i := 0; i < c.n(40, 600); i++ {
+			k := r.Range(2, 6)
+			var cuts []int
+			total := 0
+			for j := 0; j < k; j++ {
+				e := []int{1, 9, 10, 11, 99, 100, 101, 999, 1000, 1001, 9999, 10000}[r.Intn(12)]
+				cuts = append(cuts, e)
+				total += e
+			}
+			p := genPayload(r)
+			for len(p) < total {
+				p = append(p, r.Bytes(r.Range(1, 300), []byte("ab#\n0 <>/19"))...)
+			}
+			p = append(p[:total-1:total-1], '>')
+			addFrame11(p, cuts, r.PickB(ws), r.PickB(ws), "frame11-digit-edges")
 		}
 		for i := 0; i < c.n(400, 20000); i++ {
 			p := genPayload(r)
 			p = bytes.ReplaceAll(p, []byte("]]>]]>"), []byte("]]>"))
 			decl := "0"
-			if bytes.HasPrefix(p, []byte("<?xml")) {
+			if bytes.HasPrefix(p, []byte("<?xml")) && bytes.HasPrefix(p, []byte(`<?xml version="1.0" encoding="UTF-8"?>`)) {
 				p = bytes.TrimPrefix(p, []byte(`<?xml version="1.0" encoding="UTF-8"?>`))
 				decl = "1"
 			}
-			cases = append(cases, c02case{line: fmt.Sprintf("c02 frame 1.0 %s %s %s", decl, vlib.Hex(p), vlib.Hex(r.PickB(ws))), class: "frame10", frame: true, ver: "1.0"})
+			// white space in front of the message: the LF a server sends behind the previous
+			// message's delimiter, when it reaches the client in a later read than the delimiter
+			w1 := []byte{}
+			if r.Chance(2, 5) {
+				w1 = r.PickB(ws[1:])
+			}
+			cl := "frame10"
+			if len(w1) > 0 {
+				cl = "frame10-leading-space"
+			}
+			cases = append(cases, c02case{line: fmt.Sprintf("c02 frame 1.0 %s %s %s %s", decl, vlib.Hex(p), vlib.Hex(r.PickB(ws)), vlib.Hex(w1)), class: cl, frame: true, ver: "1.0",
+				lead: len(w1) > 0 && decl == "1", p10: p})
 		}
 	}
 	// ask the model to build frames / give spec
@@ -186,8 +269,8 @@ func runC02(c *ctx) {
 	}
 	ans := c.ask(lines)
 	type spec struct {
-		dom, failed bool
-		raw, result []byte
+		dom, failed, thm bool
+		raw, result      []byte
 	}
 	specs := map[int]spec{}
 	k := 0
@@ -197,13 +280,15 @@ func runC02(c *ctx) {
 		}
 		f := strings.Fields(ans[k])
 		k++
-		if len(f) != 4 {
+		if len(f) != 4 && len(f) != 5 {
 			res.Fail("machinery", cases[i].line, "driver answered "+ans[k-1], "driver")
 			continue
 		}
 		raw, _ := vlib.UnHex(f[1])
 		result, _ := vlib.UnHex(f[3])
-		specs[i] = spec{dom: f[0] == "1", failed: f[2] == "1", raw: raw, result: result}
+		// thm: a proved theorem covers the case (always so for 1.1 frames in the domain; for 1.0 not
+		// when white space precedes a declaration: no theorem can hold there, finding C02-F21)
+		specs[i] = spec{dom: f[0] == "1", failed: f[2] == "1", raw: raw, result: result, thm: len(f) == 4 || f[4] == "1"}
 		cases[i].raw = raw
 	}
 	// malformed stream, derived from legal 1.1 frames
@@ -267,6 +352,17 @@ func runC02(c *ctx) {
 		lines = append(lines, "c02 raw "+cs.ver+" "+vlib.Hex(cs.raw))
 	}
 	mans := c.ask(lines)
+	// rpc-error message lists: model (hand-written scan + the regex engine on the extracted
+	// pattern) for every raw that mentions rpc-error and is short enough for the regex engine
+	msgIdx := map[int]int{}
+	lines = lines[:0]
+	for i, cs := range cases {
+		if bytes.Contains(cs.raw, []byte("rpc-error")) && len(cs.raw) <= 1500 {
+			msgIdx[i] = len(lines)
+			lines = append(lines, "c02 msgs "+vlib.Hex(cs.raw))
+		}
+	}
+	msgAns := c.ask(lines)
 	for i, cs := range cases {
 		res.Count("class:" + cs.class)
 		impl := implRecord(cs.ver, cs.raw)
@@ -277,7 +373,7 @@ func runC02(c *ctx) {
 		}
 		mFailed, mResult := f[0] == "1", f[2]
 		sp, isFrame := specs[i]
-		nontrivial := !isFrame || (sp.dom && strings.Count(cs.line, ",") >= 1)
+		nontrivial := !isFrame || (sp.dom && strings.Count(cs.line, ",") >= 1) || cs.class == "frame10-leading-space"
 		res.Case(string(cs.raw)+cs.ver, nontrivial)
 		if i%997 == 0 {
 			res.Sample(map[string]any{"class": cs.class, "version": cs.ver, "raw": string(cs.raw), "impl_failed": impl.failed, "impl_result": string(impl.result)})
@@ -292,22 +388,36 @@ func runC02(c *ctx) {
 			res.Fail("oracle", rawLine, fmt.Sprintf("Record(%q) returned bytes not in the input: %q", cs.raw, impl.result), "foreign-bytes")
 			continue
 		}
+		for _, m := range append(append([]string{}, impl.errs...), impl.warns...) {
+			if !bytes.Contains(cs.raw, []byte(m)) {
+				res.Fail("oracle", rawLine, fmt.Sprintf("Record(%q) reports an rpc-error message that is not a piece of the input: %q", cs.raw, m), "foreign-bytes:messages")
+			}
+		}
 		if cs.must && !impl.failed {
 			res.Fail("oracle", rawLine, fmt.Sprintf("malformed frame (%s) not marked failed: %q -> %q", cs.class, cs.raw, impl.result), "malformed-accepted:"+cs.class)
 			continue
 		}
 		if isFrame && sp.dom {
 			res.InDomain++
+			if cs.lead {
+				res.Count("frame10:declaration-behind-leading-space")
+			}
 			if !bytes.Equal(impl.result, sp.result) || impl.failed != sp.failed {
 				sig := "legal-frame-wrong-result"
 				if bytes.Equal(impl.result, sp.result) {
 					sig = "legal-frame-wrong-failed"
 				}
+				// finding C02-F21, and nothing else: white space in front of the declaration, and the
+				// result is the payload with exactly the declaration left in front
+				if cs.lead && impl.failed == sp.failed &&
+					bytes.Equal(impl.result, bytes.TrimSpace(append([]byte(`<?xml version="1.0" encoding="UTF-8"?>`), cs.p10...))) {
+					sig = "legal-frame10-leading-space-keeps-declaration"
+				}
 				res.Fail("oracle", cs.line, fmt.Sprintf("legal frame %q: result %q failed=%v, expected %q failed=%v", cs.raw, impl.result, impl.failed, sp.result, sp.failed), sig)
 				continue
 			}
-			// theorem sanity: model must equal spec on in-domain frames
-			if mFailed != sp.failed || mResult != vlib.Hex(sp.result) {
+			// theorem sanity: model must equal spec on in-domain frames a theorem covers
+			if sp.thm && (mFailed != sp.failed || mResult != vlib.Hex(sp.result)) {
 				res.Fail("machinery", cs.line, "model differs from spec on an in-domain frame: "+mans[i], "model-vs-spec")
 			}
 		}
@@ -315,6 +425,34 @@ func runC02(c *ctx) {
 		edgeOK := len(impl.result) == 0 || (impl.result[0] < 128 && impl.result[len(impl.result)-1] < 128)
 		if edgeOK && (impl.failed != mFailed || vlib.Hex(impl.result) != mResult) {
 			res.Fail("correspondence", rawLine, fmt.Sprintf("impl failed=%v result=%q ; model %s", impl.failed, impl.result, mans[i]), "impl-vs-model")
+		}
+		// correspondence on the message lists (ErrorMessages / WarningErrorMessages)
+		if k, ok := msgIdx[i]; ok {
+			mf := strings.Fields(msgAns[k])
+			if len(mf) != 3 {
+				res.Fail("machinery", "c02 msgs "+vlib.Hex(cs.raw), "driver answered "+msgAns[k], "driver")
+				continue
+			}
+			res.Count("messages:checked")
+			if len(impl.errs) > 0 {
+				res.Count("messages:with-error-severity")
+			}
+			if len(impl.warns) > 0 {
+				res.Count("messages:with-warning-severity")
+			}
+			hx := func(xs []string) string {
+				var bs [][]byte
+				for _, x := range xs {
+					bs = append(bs, []byte(x))
+				}
+				return vlib.HexList(bs)
+			}
+			if hx(impl.errs) != mf[0] || hx(impl.warns) != mf[1] {
+				res.Fail("correspondence", "c02 msgs "+vlib.Hex(cs.raw), fmt.Sprintf("Record(%q): ErrorMessages %q WarningErrorMessages %q ; model %s", cs.raw, impl.errs, impl.warns, msgAns[k]), "impl-vs-model:messages")
+			}
+			if mf[2] != "1" {
+				res.Fail("machinery", "c02 msgs "+vlib.Hex(cs.raw), "the hand-written block scan and the regex engine on rpcSingleErrors disagree: "+msgAns[k], "scan-vs-regex")
+			}
 		}
 	}
 	res.TracesVsImpl = len(cases)
